@@ -4,6 +4,7 @@
    gradient half is a labelled test of the correspondence driver. *)
 From Coq Require Import Arith List Permutation Reals QArith Qcanon.
 From GPV Require Import Base.LinAlg Base.Exec Base.Expr Models.C01_posterior Models.C02_mll Proofs.C02_mll.
+From GPV Require Import Models.C02_priors Proofs.C02_priors.
 Import ListNotations.
 
 (* LOO: for EVERY size n = k+1 and EVERY index i, the code's sigma_i^2 = 1/[A^-1]_ii and
@@ -82,6 +83,48 @@ Theorem c02_mll_registration_order_irrelevant :
     mll_value logp priors added nd = mll_value logp priors' added' nd.
 Proof. intros K. exact (@mll_perm K). Qed.
 Print Assumptions c02_mll_registration_order_irrelevant.
+
+(* WHICH priors enter (Module.named_priors, model: memo on the visited modules): for EVERY module tree
+   without sharing the traversal yields every registration, in order -- whatever the registration
+   names (two sub-modules may both register a `lengthscale_prior`) and whatever the prior objects
+   (one prior object may serve parameters of several modules) *)
+Theorem c02_named_priors_every_registration :
+  forall t, NoDup (ids t) -> named_priors t = regs t.
+Proof. exact named_priors_tree_all. Qed.
+Print Assumptions c02_named_priors_every_registration.
+
+(* ... and with shared modules (a module reachable under several names, any tree) no (module, name)
+   registration is ever yielded twice *)
+Theorem c02_named_priors_never_twice :
+  forall t, names_nodup t -> NoDup (map reg_key (named_priors t)).
+Proof. exact named_priors_once. Qed.
+Print Assumptions c02_named_priors_never_twice.
+
+(* the de-duplication rule of /repo after fix 1d4b0ae (memo on the prior OBJECTS already yielded) does
+   not have the first property: a prior object registered on two modules of a sharing-free tree with
+   distinct names per module is yielded once (known finding C02-prior-object-shared-by-two-modules) *)
+Theorem c02_named_priors_dedup_by_prior_object_refuted :
+  exists t, NoDup (ids t) /\ names_nodup t
+            /\ (length (fst (collect_by_prior t [])) < length (regs t))%nat.
+Proof. exact by_prior_object_drops. Qed.
+Print Assumptions c02_named_priors_dedup_by_prior_object_refuted.
+
+(* HOW a prior term is distributed over the batch elements (_add_other_terms).  A NON-batch module
+   (batch shape []), or one whose batch shape consists of ones: ALL entries of its parameter (e.g. all
+   ARD lengthscales) count for EVERY batch element, whatever the batch shape of the objective *)
+Theorem c02_prior_slot_nonbatch_module :
+  forall (K : Fld) P (vals : list car) idx, Forall (fun s => s = 1%nat) P ->
+    slot_sum P (length vals) vals idx = csum vals.
+Proof. intros K. exact (@slot_ones K). Qed.
+Print Assumptions c02_prior_slot_nonbatch_module.
+
+(* a module carrying the full batch shape F (any number of dims, any sizes): the slots of the batch
+   elements partition the entries -- summed over all elements every entry counts exactly once *)
+Theorem c02_prior_slot_partition :
+  forall (K : Fld) F tail (vals : list car), length vals = (prodn F * tail)%nat ->
+    csum (map (slot_sum F tail vals) (all_idx F)) = csum vals.
+Proof. intros K. exact (@slot_partition K). Qed.
+Print Assumptions c02_prior_slot_partition.
 
 (* multitask: number of observations = points x tasks *)
 Theorem c02_num_data_multitask :
